@@ -7,7 +7,7 @@
 #include <sstream>
 
 #ifdef _OPENMP
-extern "C" int omp_get_num_procs(void) { return 64; }
+extern "C" int omp_get_num_procs(void) { return vf::g_fake_procs; }
 #endif
 
 namespace vf {
@@ -69,6 +69,7 @@ CaseResult run_static(const RunCtx &ctx, TapeReader &t, unsigned size_hint) {
     o.size_hint = size_hint;
     o.xkeys = ctx.x("xkeys");
     o.xthreads = ctx.x("xthreads");
+    o.xprocs = ctx.x("xprocs");
     std::vector<K> keys = gen_keys<K>(t, o, meta);
     // with probability 1/12 the data ends with k >= 1 copies of the reserved value: create must return NULL
     size_t reserved_tail = t.chance(1, 12) ? 1 + t.below(3) : 0;
@@ -83,6 +84,7 @@ CaseResult run_static(const RunCtx &ctx, TapeReader &t, unsigned size_hint) {
         if (!xk.empty()) {
             res.xdata.emplace_back("xkeys", xk);
             res.xdata.emplace_back("xthreads", std::to_string(meta.threads));
+            res.xdata.emplace_back("xprocs", std::to_string(meta.procs));
             res.xdata.emplace_back("xeps", std::to_string(eps));
             res.xdata.emplace_back("xreserved", std::to_string(reserved_tail));
         }
